@@ -113,10 +113,27 @@ CHECKS = {
              "reading (reset on dequeue wins). Promptness is stated in evaluation steps, not milliseconds.",
         design_ref="DESIGN.md section 3, C31",
     ),
+    "C24": dict(
+        engine="worldsim",
+        category="exploration",
+        technique="deterministic simulation of the environment: the real binary in a seeded scratch world (files, canary on "
+                  "PATH, loaded/stalled/closed stdin, injected Ctrl-C at step k) with an effect monitor (snapshots, canary "
+                  "marker, stdin accounting, strace)",
+        text="Every effectful built-in (all fs:: functions, Path.exists/info, shell::run three ways, read_line) with "
+             "well-typed arguments aimed at world objects, at 11 program positions, in playground-run and sandboxed-test "
+             "mode, under three stdin worlds and optional Ctrl-C at step k. Oracle: world snapshot unchanged, canary not "
+             "run, stdin bytes unconsumed, secret/stdin tokens absent from output, the run ends with the sandbox refusal "
+             "and nothing after the call site ran, no blocked read; for half of the quick runs also no world-touching "
+             "syscall, process creation or read(0) in the strace log.",
+        note="The list of effectful built-ins is hand-written from src/__*.gdn (a new effectful built-in must be added to "
+             "effect_calls). set_working_directory, working_directory and get_env are not in the property's list of "
+             "forbidden effects and are not flagged.",
+        design_ref="DESIGN.md section 3, C24",
+    ),
 }
 
 PENDING = {p: "claimed in DESIGN.md; its check is not built yet, so nothing is claimed for it in this manifest"
-           for p in ["C24", "C25", "C26", "C28"]}
+           for p in ["C25", "C26", "C28"]}
 
 NOT_APPLICABLE = {
     "C01": "lex/parse/check never crash: a pure function of one source string; no schedule, clock, fault or history to simulate (fuzzing territory)",
